@@ -55,8 +55,9 @@ func (h *History) CheckC04() []string {
 			if !lib.SnapOf(o).Equal(pr.Snaps[i]) {
 				v = append(v, fmt.Sprintf("copy: the publisher's original %s changed: %+v -> %+v", pr.IDs[i], pr.Snaps[i], lib.SnapOf(o)))
 			}
-			if a, n := lib.Settled(o); a || n {
-				v = append(v, fmt.Sprintf("copy: the publisher's original %s was settled (acked=%v nacked=%v) by a subscriber", pr.IDs[i], a, n))
+			a, n := lib.Settled(o)
+			if now := fmt.Sprintf("acked=%v nacked=%v", a, n); i < len(pr.Pre) && now != pr.Pre[i] {
+				v = append(v, fmt.Sprintf("copy: the publisher's original %s was %s when it was published and is %s now: settled by a subscriber", pr.IDs[i], pr.Pre[i], now))
 			}
 		}
 	}
@@ -147,6 +148,28 @@ func (h *History) CheckC05() []string {
 					if !ok {
 						v = append(v, fmt.Sprintf("block: Publish p%dc%d returned at %d but sub#%d (subscribed since %d) had not acked %s yet (receipts: %s)", pr.Pub, pr.Call, pr.EndT, s.Index, s.EndT, id, describe(byID[id])))
 					}
+				}
+			}
+		}
+		// the same for the Publish calls subscribers make themselves while they hold a message (follow-ups, whatever context
+		// they carry): the call returns once the subscriptions of that topic have acked
+		for _, sp := range h.SidePubs {
+			if sp.Err != nil {
+				continue
+			}
+			for _, s := range h.Subs {
+				spec := h.Prog.Subs[s.Index]
+				if !spec.Side || !s.Started || s.Err != nil || s.Topic != sp.Topic || s.EndT == 0 || s.EndT > sp.StartT || s.CancelT != 0 {
+					continue
+				}
+				ok := false
+				for _, r := range s.Receipts {
+					if r.ID == sp.ID && r.Acked && r.SettleT != 0 && r.SettleT < sp.EndT {
+						ok = true
+					}
+				}
+				if !ok {
+					v = append(v, fmt.Sprintf("block: the Publish of follow-up %s (made by a subscriber while holding its message; carries that message's context: %v) returned at %d but sub#%d of %s had not acked it yet", sp.ID, sp.OwnCtx, sp.EndT, s.Index, sp.Topic))
 				}
 			}
 		}
